@@ -148,6 +148,14 @@ Proof.
     rewrite (loc_protectedb_complete _ _ Hp) in H. cbn in H. apply location_eqb_eq. exact H.
 Qed.
 
+Theorem lines_attachedb_sound_lemma p p' : lines_attachedb p p' = true -> lines_attached p p'.
+Proof.
+  unfold lines_attachedb, lines_attached. intros H.
+  eapply Forall2_impl; [|apply list_eqb_Forall2; exact H]. cbn beta. intros l l' Hr.
+  apply orb_true_iff in Hr. destruct Hr as [Hr|Hr]; [left; apply location_eqb_eq; exact Hr | right].
+  destruct (l_lines l'); [discriminate | discriminate].
+Qed.
+
 Theorem names_keptb_sound_lemma p p' : names_keptb p p' = true -> names_kept p p'.
 Proof.
   unfold names_keptb, names_kept. intros H. eapply extended_impl; [|apply prefix_rel_extended; exact H].
